@@ -2,7 +2,7 @@
    Model: PL.Rainflow.Model (tied to the code by correspondence); specifications: PL.Rainflow.Spec.
    Only statements, `exact`, Print Assumptions. *)
 From Coq Require Import ZArith List Bool Permutation.
-From PL Require Import Rainflow.Model Rainflow.Eqb Rainflow.FP Rainflow.Spec Rainflow.SpecThm Rainflow.IndexThm Rainflow.HcmThm Rainflow.Bounded34 Rainflow.Index3 Rainflow.Cons3.
+From PL Require Import Rainflow.Model Rainflow.Eqb Rainflow.FP Rainflow.Spec Rainflow.SpecThm Rainflow.IndexThm Rainflow.HcmThm Rainflow.Bounded34 Rainflow.Index3 Rainflow.Cons3 Rainflow.Same34Thm.
 Import ListNotations.
 Open Scope Z_scope.
 
@@ -60,9 +60,16 @@ Proof. exact (SpecThm.find_turns_addresses s). Qed.
 Theorem fourpoint_residual_irreducible items : irr (fst (FP.run items)).
 Proof. exact (FP.run_irr items). Qed.
 
-(* three-point = four-point (same multiset of cycles incl. indices, same residual and residual index):
-   the general statement is the McInnes-Meehan equivalence, kept as a Definition; proved here for every
-   signal over {0..3} of length <= 8 *)
+(* three-point = four-point, unbounded: for every signal the three-point detector reports the same cycles (values
+   and sample indices) IN THE SAME ORDER, the same residual and the same residual index as the four-point
+   detector (this contains the property's "same multiset of cycles and the same residual").  Proof: on a stack
+   of the shape maintained by the three-point machine (TPInv.Inv) the three-point test and the four-point test
+   decide alike, so the two item-level machines run in lock step (Same34.fold_same); both Cython loops refine
+   their machine (Refine.v, Refine3.v). *)
+Theorem threepoint_same_as_fourpoint s : s <> [] -> run3 [s] = run4 [s].
+Proof. exact (Same34Thm.threepoint_is_fourpoint s). Qed.
+(* the bounded sweep (every signal over {0..3} of length <= 8, boolean multiset comparison incl. indices) is
+   kept as an independent evaluation of the model *)
 Definition threepoint_same_as_fourpoint_statement : Prop := forall s, s <> [] -> same34 s = true.
 Theorem threepoint_same_as_fourpoint_bounded s :
   (1 <= length s <= 8)%nat -> Forall (fun x => 0 <= x <= 3) s -> same34 s = true.
@@ -82,4 +89,5 @@ Print Assumptions index_addresses_value_4pt.
 Print Assumptions index_addresses_value_3pt.
 Print Assumptions find_turns_addresses.
 Print Assumptions fourpoint_residual_irreducible.
+Print Assumptions threepoint_same_as_fourpoint.
 Print Assumptions threepoint_same_as_fourpoint_bounded.
